@@ -178,18 +178,16 @@ pub fn check_history<S: Shape>(spec: &AnimSpec, ops: &[Op], acc: &mut Acc, mode:
             }
             Mode::C05 => {
                 let st_ok = real.current_state().idx() == model.state;
-                // bit-exact against the model where the time in state is exact; where it was delivered in steps
-                // whose sum is not exact, the values must be those of the timeline at SOME f32 time within float
-                // rounding of the time spent in the state (the model then continues from the observed values)
+                // the values must be those of the timeline at an f32 time within float rounding of the time spent
+                // in the state: normally the very time the model computes (bit-exact agreement), else one of the
+                // neighbouring f32 times (`MAnim::candidate_times`); the model then continues from the observed values
                 let mut val_ok = same_all(after, &model.values);
-                if !val_ok && !model.clock.exact && matches!(op, Op::Adv(_)) {
+                if !val_ok && st_ok {
                     if model.candidate_times().iter().any(|t| same_all(after, &model.values_at(*t))) {
                         val_ok = true;
-                        acc.count("advance_matched_at_a_neighbouring_f32_time (inexact step sums)", 1);
+                        acc.count(if model.clock.exact { "values_matched_at_a_neighbouring_f32_time (exact clock)" } else { "values_matched_at_a_neighbouring_f32_time (inexact step sums)" }, 1);
+                        model.values = after.clone();
                     }
-                }
-                if val_ok && !model.clock.exact {
-                    model.values = after.clone();
                 }
                 let end_ok = real.is_ended() == model.is_ended() || model.ended_in_band();
                 if verbose {
